@@ -10,7 +10,7 @@ Definition stuckb (ck : checkout) : bool :=
 
 Definition ck_rel (ck ck' : checkout) : Prop :=
   k_token ck' = k_token ck /\ k_owner ck' = k_owner ck /\ k_inner ck' = k_inner ck /\ k_conn ck' = k_conn ck
-  /\ (stuckb ck' = true -> stuckb ck = true).
+  /\ (stuckb ck' = true -> stuckb ck = true) /\ k_waiter ck' = k_waiter ck.
 
 Definition req_rel (o o' : option req) : Prop :=
   match o with
@@ -20,18 +20,25 @@ Definition req_rel (o o' : option req) : Prop :=
   | Some _ => exists rq', o' = Some rq' /\ is_lv rq' = false
   end.
 
+Definition islv (s : state) (r : nat) : bool := match get_req s r with Some rq => is_lv rq | None => false end.
+
 Definition marker (s : state) (t : nat) : option nat := p_marker (get_tok s t).
 Definition waiting (s : state) (t : nat) : list (nat * bool) := p_waiting (get_tok s t).
 
-(* [x]: the request whose poll / cancellation / delayed connector is being executed *)
-Record Fr (x : option nat) (s s' : state) : Prop := mkFr {
-  f_req : forall r, (x = Some r /\ isck s r = true) \/ req_rel (get_req s r) (get_req s' r);
-  f_dial : forall r, x <> Some r -> get_dial s' r = get_dial s r;
+(* [xr]: the request that is being polled / cancelled (anything may happen to it);
+   [xd]: the request whose connector is being polled (its dial may change);
+   [xt]: the request whose delayed connector task is being created or finished *)
+Record Fr (xr xd xt : option nat) (s s' : state) : Prop := mkFr {
+  f_req : forall r, xr = Some r \/ req_rel (get_req s r) (get_req s' r);
+  f_dial : forall r, xd <> Some r -> get_dial s' r = get_dial s r;
   f_keep : forall tid rid t own, nth tid (tasks s) None = Some (TDelayed rid t own) ->
-           nth tid (tasks s') None = Some (TDelayed rid t own) \/ x = Some rid;
+           nth tid (tasks s') None = Some (TDelayed rid t own) \/ xt = Some rid;
   f_new : forall tid rid t own, nth tid (tasks s') None = Some (TDelayed rid t own) ->
-          nth tid (tasks s) None = Some (TDelayed rid t own) \/ x = Some rid;
-  f_runq : forall tid, In tid (runq s) -> In tid (runq s')
+          nth tid (tasks s) None = Some (TDelayed rid t own) \/ xt = Some rid;
+  f_runq : exists l, runq s' = runq s ++ l;
+  f_len : List.length (reqs s') = List.length (reqs s);
+  f_tl : List.length (toks s') = List.length (toks s);
+  f_keys : keys s' = keys s
 }.
 
 Record TokRel (x : option nat) (s s' : state) : Prop := mkTokRel {
@@ -41,12 +48,12 @@ Record TokRel (x : option nat) (s s' : state) : Prop := mkTokRel {
            In (r, true) (waiting s' (k_token ck)) /\ marker s' (k_token ck) <> None
 }.
 
-Definition Tr (x : option nat) (s s' : state) : Prop := Fr x s s' /\ TokRel x s s'.
+Definition Tr (xr xd xt : option nat) (s s' : state) : Prop := Fr xr xd xt s s' /\ TokRel xr s s'.
 
 Lemma ck_rel_refl ck : ck_rel ck ck.
 Proof. repeat split; auto. Qed.
 Lemma ck_rel_trans a b c : ck_rel a b -> ck_rel b c -> ck_rel a c.
-Proof. intros (A1 & A2 & A3 & A4 & A5) (B1 & B2 & B3 & B4 & B5). repeat split; try congruence. auto. Qed.
+Proof. intros (A1 & A2 & A3 & A4 & A5 & A6) (B1 & B2 & B3 & B4 & B5 & B6). repeat split; try congruence. auto. Qed.
 
 Lemma req_rel_refl o : req_rel o o.
 Proof. destruct o as [[|ck|p f pl| |]|]; cbn; eauto using ck_rel_refl. Qed.
@@ -62,9 +69,9 @@ Proof.
   - intros ->. cbn. auto.
 Qed.
 
-Lemma req_rel_isck s s' r : req_rel (get_req s r) (get_req s' r) -> isck s' r = isck s r.
+Lemma req_rel_islv s s' r : req_rel (get_req s r) (get_req s' r) -> islv s' r = islv s r.
 Proof.
-  unfold isck. destruct (get_req s r) as [[|ck|p f pl| |]|]; cbn.
+  unfold islv. destruct (get_req s r) as [[|ck|p f pl| |]|]; cbn.
   - intros ->. reflexivity.
   - intros [ck' [-> _]]. reflexivity.
   - intros [rq' [-> H]]. destruct rq'; try discriminate; reflexivity.
@@ -73,25 +80,30 @@ Proof.
   - intros ->. reflexivity.
 Qed.
 
-Lemma Fr_refl x s : Fr x s s.
-Proof. constructor; auto. intros r. right. apply req_rel_refl. Qed.
+Lemma Fr_refl xr xd xt s : Fr xr xd xt s s.
+Proof. constructor; auto; [intros r; right; apply req_rel_refl|exists []; rewrite app_nil_r; reflexivity]. Qed.
 
-Lemma Fr_trans x s1 s2 s3 : Fr x s1 s2 -> Fr x s2 s3 -> Fr x s1 s3.
+Lemma Fr_runq_in xr xd xt s s' tid : Fr xr xd xt s s' -> In tid (runq s) -> In tid (runq s').
+Proof. intros F H. destruct (f_runq _ _ _ _ _ F) as [l E]. rewrite E. apply in_or_app. left. exact H. Qed.
+
+Lemma Fr_trans xr xd xt s1 s2 s3 : Fr xr xd xt s1 s2 -> Fr xr xd xt s2 s3 -> Fr xr xd xt s1 s3.
 Proof.
-  intros [A1 A2 A3 A4 A5] [B1 B2 B3 B4 B5]. constructor.
+  intros [A1 A2 A3 A4 A5 A6 A7 A8] [B1 B2 B3 B4 B5 B6 B7 B8]. constructor.
   - intros r. destruct (A1 r) as [Ha|Ha]; [left; exact Ha|].
-    destruct (B1 r) as [[Hb1 Hb2]|Hb]; [|right; eapply req_rel_trans; eauto].
-    left. split; [exact Hb1|]. rewrite <- (req_rel_isck _ _ _ Ha). exact Hb2.
+    destruct (B1 r) as [Hb|Hb]; [left; exact Hb|right; eapply req_rel_trans; eauto].
   - intros r Hx. rewrite B2, A2; auto.
   - intros tid rid t own H. destruct (A3 _ _ _ _ H) as [H1|H1]; [|right; exact H1]. apply B3. exact H1.
   - intros tid rid t own H. destruct (B4 _ _ _ _ H) as [H1|H1]; [|right; exact H1]. apply A4. exact H1.
-  - auto.
+  - destruct A5 as [l1 E1]. destruct B5 as [l2 E2]. exists (l1 ++ l2). rewrite E2, E1, app_assoc. reflexivity.
+  - congruence.
+  - congruence.
+  - congruence.
 Qed.
 
-Lemma Fr_weaken x s s' : Fr None s s' -> Fr x s s'.
+Lemma Fr_weaken xr xd xt s s' : Fr None None None s s' -> Fr xr xd xt s s'.
 Proof.
-  intros [A1 A2 A3 A4 A5]. constructor; auto.
-  - intros r. destruct (A1 r) as [[Ha _]|Ha]; [discriminate|right; exact Ha].
+  intros [A1 A2 A3 A4 A5 A6 A7 A8]. constructor; auto.
+  - intros r. destruct (A1 r) as [Ha|Ha]; [discriminate|right; exact Ha].
   - intros r _. apply A2. discriminate.
   - intros tid rid t own H. destruct (A3 _ _ _ _ H) as [H1|H1]; [left; exact H1|discriminate].
   - intros tid rid t own H. destruct (A4 _ _ _ _ H) as [H1|H1]; [left; exact H1|discriminate].
@@ -109,49 +121,562 @@ Qed.
 Lemma TokRel_refl x s : TokRel x s s.
 Proof. constructor; auto. Qed.
 
-Lemma Tr_refl x s : Tr x s s.
+Lemma Tr_refl xr xd xt s : Tr xr xd xt s s.
 Proof. split; [apply Fr_refl|apply TokRel_refl]. Qed.
 
-Lemma Tr_trans x s1 s2 s3 : Tr x s1 s2 -> Tr x s2 s3 -> Tr x s1 s3.
+Lemma Tr_trans xr xd xt s1 s2 s3 : Tr xr xd xt s1 s2 -> Tr xr xd xt s2 s3 -> Tr xr xd xt s1 s3.
 Proof.
   intros [FA [A1 A2]] [FB [B1 B2]]. split; [eapply Fr_trans; eauto|]. constructor.
   - auto.
   - intros r ck3 Hx Hr3 Hs3 Hin Hm.
-    destruct (f_req _ _ _ FB r) as [[E _]|Hrel]; [congruence|]. rewrite Hr3 in Hrel.
-    destruct (req_rel_ck_inv _ _ Hrel) as [ck2 [Hr2 (T1 & _ & _ & _ & T5)]].
+    destruct (f_req _ _ _ _ _ FB r) as [E|Hrel]; [congruence|]. rewrite Hr3 in Hrel.
+    destruct (req_rel_ck_inv _ _ Hrel) as [ck2 [Hr2 (T1 & _ & _ & _ & T5 & _)]].
     rewrite T1 in Hin, Hm.
     destruct (A2 r ck2 Hx Hr2 (T5 Hs3) Hin Hm) as [Hin2 Hm2].
     rewrite <- T1 in Hin2, Hm2. exact (B2 r ck3 Hx Hr3 Hs3 Hin2 Hm2).
 Qed.
 
-Lemma Tr_weaken x s s' : Tr None s s' -> Tr x s s'.
+Lemma Tr_weaken xr xd xt s s' : Tr None None None s s' -> Tr xr xd xt s s'.
 Proof.
   intros [F [A1 A2]]. split; [apply Fr_weaken; exact F|]. constructor; auto.
   intros r ck _. apply A2. discriminate.
 Qed.
 
-(* a step that touches neither the queues nor the marks *)
-Lemma Tr_of_Fr x s s' : (forall t, get_tok s' t = get_tok s t) -> Fr x s s' -> Tr x s s'.
+Lemma Tr_weaken_t xr xd xt s s' : Tr xr xd None s s' -> Tr xr xd xt s s'.
 Proof.
-  intros Ht F. split; [exact F|]. constructor; unfold marker, waiting.
-  - intros t o. rewrite Ht. auto.
-  - intros r ck _ _ _. rewrite !Ht. auto.
+  intros [[A1 A2 A3 A4 A5 A6 A7 A8] T]. split; [|exact T]. constructor; auto.
+  - intros tid rid t own H. destruct (A3 _ _ _ _ H) as [H1|H1]; [left; exact H1|discriminate].
+  - intros tid rid t own H. destruct (A4 _ _ _ _ H) as [H1|H1]; [left; exact H1|discriminate].
 Qed.
 
-Lemma get_tok_frame s s' : toks s' = toks s -> forall t, get_tok s' t = get_tok s t.
-Proof. intros H [|i]; cbn; [reflexivity|]. rewrite H. reflexivity. Qed.
+(* a step that touches neither the queues nor the marks *)
+Lemma Tr_of_Fr xr xd xt s s' : (forall t, marker s' t = marker s t /\ waiting s' t = waiting s t) -> Fr xr xd xt s s' -> Tr xr xd xt s s'.
+Proof.
+  intros Ht F. split; [exact F|]. constructor.
+  - intros t o. rewrite (proj1 (Ht t)). auto.
+  - intros r ck _ _ _. rewrite (proj1 (Ht _)), (proj2 (Ht _)). auto.
+Qed.
+
+Lemma get_tok_frame s s' : toks s' = toks s -> forall t, marker s' t = marker s t /\ waiting s' t = waiting s t.
+Proof. intros H [|i]; unfold marker, waiting; cbn; [auto|]. rewrite H. auto. Qed.
+
+Lemma app_nil_ex {A} (l : list A) : exists l0, l = l ++ l0.
+Proof. exists []. rewrite app_nil_r. reflexivity. Qed.
+#[export] Hint Resolve app_nil_ex : core.
 
 Lemma Fr_same s s' :
-  reqs s' = reqs s -> dials s' = dials s -> tasks s' = tasks s -> (forall tid, In tid (runq s) -> In tid (runq s')) -> Fr None s s'.
+  reqs s' = reqs s -> dials s' = dials s -> tasks s' = tasks s -> (exists l, runq s' = runq s ++ l) ->
+  List.length (toks s') = List.length (toks s) -> keys s' = keys s -> Fr None None None s s'.
 Proof.
-  intros H1 H2 H3 H4. constructor; auto.
+  intros H1 H2 H3 H4 H5 H6. constructor; auto.
   - intros r. right. unfold get_req. rewrite H1. apply req_rel_refl.
   - intros r _. unfold get_dial. rewrite H2. reflexivity.
   - intros tid rid t own. rewrite H3. auto.
   - intros tid rid t own. rewrite H3. auto.
+  - rewrite H1. reflexivity.
 Qed.
 
 Lemma Tr_same s s' :
-  reqs s' = reqs s -> dials s' = dials s -> tasks s' = tasks s -> (forall tid, In tid (runq s) -> In tid (runq s')) ->
-  toks s' = toks s -> Tr None s s'.
-Proof. intros H1 H2 H3 H4 H5. apply Tr_of_Fr; [apply get_tok_frame; exact H5|apply Fr_same; assumption]. Qed.
+  reqs s' = reqs s -> dials s' = dials s -> tasks s' = tasks s -> (exists l, runq s' = runq s ++ l) ->
+  toks s' = toks s -> keys s' = keys s -> Tr None None None s s'.
+Proof. intros H1 H2 H3 H4 H5 H6. apply Tr_of_Fr; [apply get_tok_frame; exact H5|apply Fr_same; try assumption; rewrite H5; reflexivity]. Qed.
+
+Lemma Tr_emit e s : Tr None None None s (emit e s). Proof. apply Tr_same; auto. Qed.
+Lemma Tr_upd_conn c f s : Tr None None None s (upd_conn c f s). Proof. apply Tr_same; auto. Qed.
+Lemma Tr_wake_req r s : Tr None None None s (wake_req r s). Proof. apply Tr_same; auto. Qed.
+Lemma Tr_unwake_req r s : Tr None None None s (unwake_req r s). Proof. apply Tr_same; auto. Qed.
+Lemma Tr_set_now v s : Tr None None None s (set_now v s). Proof. apply Tr_same; auto. Qed.
+Lemma Tr_wake_task t s : Tr None None None s (wake_task t s).
+Proof.
+  unfold wake_task. destruct (existsb (Nat.eqb t) (runq s)); [apply Tr_refl|].
+  apply Tr_same; auto. cbn. eexists. reflexivity.
+Qed.
+Lemma Tr_wake_tasks l : forall s, Tr None None None s (wake_tasks l s).
+Proof. induction l as [|t l IH]; intros s; cbn [wake_tasks]; [apply Tr_refl|]. eapply Tr_trans; [apply Tr_wake_task|apply IH]. Qed.
+Lemma Tr_wake_poller p r s : Tr None None None s (wake_poller p r s).
+Proof. destruct p as [[|tid]|]; cbn; [apply Tr_wake_req|apply Tr_wake_task|apply Tr_refl]. Qed.
+
+Lemma Tr_drop_conn c s : Tr None None None s (drop_conn c s).
+Proof.
+  unfold drop_conn. destruct (get_conn s c) as [cn|]; [|apply Tr_refl].
+  destruct (Nat.eqb (pred (c_refs cn)) 0); [eapply Tr_trans; [apply Tr_upd_conn|apply Tr_emit]|apply Tr_upd_conn].
+Qed.
+Lemma Tr_clone_conn c s : Tr None None None s (clone_conn c s). Proof. apply Tr_upd_conn. Qed.
+Lemma Tr_drain_conn_waiters c s : Tr None None None s (drain_conn_waiters c s).
+Proof.
+  unfold drain_conn_waiters. destruct (get_conn s c) as [cn|]; [|apply Tr_refl].
+  eapply Tr_trans; [apply Tr_upd_conn|apply Tr_wake_tasks].
+Qed.
+Lemma Tr_drop_all l : forall s, Tr None None None s (drop_all l s).
+Proof. induction l as [|[c a] l IH]; intros s; cbn [drop_all]; [apply Tr_refl|]. eapply Tr_trans; [apply Tr_drop_conn|apply IH]. Qed.
+
+Lemma Tr_spawn_ready c t s : Tr None None None s (spawn (TWhenReady c t) s).
+Proof.
+  apply Tr_of_Fr; [apply get_tok_frame; reflexivity|]. constructor.
+  - intros r. right. apply req_rel_refl.
+  - reflexivity.
+  - intros tid rid t' own H. left. unfold spawn. cbn [tasks set_tasks set_runq].
+    rewrite app_nth1; [exact H|]. destruct (Nat.lt_ge_cases tid (List.length (tasks s))); [assumption|].
+    rewrite nth_overflow in H by assumption. discriminate.
+  - intros tid rid t' own H. left. unfold spawn in H. cbn [tasks set_tasks set_runq] in H.
+    destruct (Nat.lt_ge_cases tid (List.length (tasks s))) as [Hl|Hl]; [rewrite app_nth1 in H by exact Hl; exact H|].
+    rewrite app_nth2 in H by exact Hl. destruct (tid - List.length (tasks s)) as [|[|n]]; cbn in H; discriminate.
+  - unfold spawn. cbn. eexists. reflexivity.
+  - reflexivity.
+  - reflexivity.
+  - reflexivity.
+Qed.
+Lemma Tr_pooled_drop p s : Tr None None None s (pooled_drop p s).
+Proof. unfold pooled_drop. destruct p as [c t]. destruct (share_of s c); [apply Tr_drop_conn|apply Tr_spawn_ready]. Qed.
+Lemma Tr_rx_drop ck s : Tr None None None s (snd (rx_drop ck s)).
+Proof. unfold rx_drop. destruct (k_waiter ck), (k_slot ck); cbn [snd]; try apply Tr_refl; apply Tr_pooled_drop. Qed.
+
+Lemma Fr_set_req xr xd xt s r v :
+  xr = Some r \/ (forall rq, get_req s r = Some rq -> req_rel (Some rq) (Some v)) ->
+  Fr xr xd xt s (set_req r v s).
+Proof.
+  intros H. constructor; auto.
+  intros r'. rewrite get_req_set_req. destruct (Nat.eqb_spec r r') as [<-|Hne]; [|right; apply req_rel_refl].
+  destruct H as [H|H]; [left; exact H|right]. destruct (get_req s r) as [rq|]; [apply H; reflexivity|reflexivity].
+  - cbn. apply upd_nth_length.
+Qed.
+
+Lemma Tr_set_req xr xd xt s r v :
+  xr = Some r \/ (forall rq, get_req s r = Some rq -> req_rel (Some rq) (Some v)) ->
+  Tr xr xd xt s (set_req r v s).
+Proof. intros H. apply Tr_of_Fr; [apply get_tok_frame; reflexivity|apply Fr_set_req; exact H]. Qed.
+
+Lemma Tr_set_ck s w ck ck' : get_req s w = Some (RCheckout ck) -> ck_rel ck ck' -> Tr None None None s (set_req w (RCheckout ck') s).
+Proof. intros Hr Hc. apply Tr_set_req. right. intros rq E. rewrite Hr in E. inversion E; subst. cbn. eauto. Qed.
+
+Lemma Tr_deliver w p s : Tr None None None s (deliver w p s).
+Proof.
+  unfold deliver. destruct (get_req s w) as [[|ck|? ? ?| |]|] eqn:Hr; try apply Tr_refl.
+  assert (H : Tr None None None s (set_req w (RCheckout (k_set_slot (Some p) ck)) s)).
+  { eapply Tr_set_ck; [exact Hr|]. repeat split; auto. unfold stuckb. cbn. destruct (k_waiter ck); discriminate. }
+  destruct (k_rxpolled ck); [eapply Tr_trans; [exact H|apply Tr_wake_req]|exact H].
+Qed.
+
+Lemma Tr_drop_sender w s : Tr None None None s (drop_sender w s).
+Proof.
+  unfold drop_sender. destruct (get_req s w) as [[|ck|? ? ?| |]|] eqn:Hr; try apply Tr_refl.
+  assert (H : Tr None None None s (set_req w (RCheckout (k_set_txdropped true ck)) s)).
+  { eapply Tr_set_ck; [exact Hr|]. repeat split; auto. unfold stuckb. cbn. destruct (k_waiter ck), (k_slot ck); discriminate. }
+  destruct (k_waiter ck); try apply Tr_refl; (destruct (k_rxpolled ck); [eapply Tr_trans; [exact H|apply Tr_wake_req]|exact H]).
+Qed.
+
+Lemma Tr_walk_waiters t c sh ws : forall s, Tr None None None s (snd (walk_waiters t c sh ws s)).
+Proof.
+  induction ws as [|[w b] ws IH]; intros s; cbn [walk_waiters]; [apply Tr_refl|].
+  destruct (rx_live s w); [destruct sh|].
+  - eapply Tr_trans; [|apply IH]. eapply Tr_trans; [apply Tr_clone_conn|apply Tr_deliver].
+  - cbn [snd]. apply Tr_deliver.
+  - apply IH.
+Qed.
+
+Lemma Tr_release_pending ws : forall s, Tr None None None s (snd (release_pending ws s)).
+Proof.
+  induction ws as [|[w b] ws IH]; intros s; cbn [release_pending]; [apply Tr_refl|].
+  destruct b.
+  - eapply Tr_trans; [apply Tr_drop_sender|apply IH].
+  - specialize (IH s). destruct (release_pending ws s) as [rest' s']. exact IH.
+Qed.
+
+Lemma Tr_pop_loop thr rl : forall s, Tr None None None s (snd (pop_loop thr rl s)).
+Proof.
+  induction rl as [|[c a] rl IH]; intros s; cbn [pop_loop]; [apply Tr_refl|].
+  destruct (match thr with Some y => (a <? y)%N | None => false end).
+  - cbn [snd]. eapply Tr_trans; [apply Tr_drop_conn|apply Tr_drop_all].
+  - destruct (is_open s c); [apply Tr_refl|]. eapply Tr_trans; [apply Tr_drop_conn|apply IH].
+Qed.
+
+(* a change of the idle lists only *)
+Lemma Tr_upd_tok_idle t f s : (forall p, p_marker (f p) = p_marker p /\ p_waiting (f p) = p_waiting p) -> Tr None None None s (upd_tok t f s).
+Proof.
+  intros Hf. destruct t as [|i]; [apply Tr_refl|]. apply Tr_of_Fr; [|apply Fr_same; auto; cbn; apply upd_nth_length].
+  intros [|j]; unfold marker, waiting; cbn [get_tok upd_tok toks set_toks]; [auto|].
+  destruct (Nat.eq_dec i j) as [<-|Hne].
+  - destruct (Nat.lt_ge_cases i (List.length (toks s))) as [Hl|Hl].
+    + rewrite nth_upd_nth_same by exact Hl. apply Hf.
+    + rewrite !nth_overflow by (rewrite ?upd_nth_length; exact Hl). auto.
+  - rewrite nth_upd_nth_other by exact Hne. auto.
+Qed.
+
+Lemma Tr_pool_pop to t s : Tr None None None s (snd (pool_pop to t s)).
+Proof.
+  unfold pool_pop.
+  pose proof (Tr_pop_loop (expiry_threshold to (now s)) (rev (p_idle (get_tok s t))) s) as H1.
+  destruct (pop_loop (expiry_threshold to (now s)) (rev (p_idle (get_tok s t))) s) as [[r rest] s1]. cbn [snd] in *.
+  eapply Tr_trans; [exact H1|]. apply Tr_upd_tok_idle. intros p. split; reflexivity.
+Qed.
+
+
+(* ---------------------------------------------------------------- stuck waiters *)
+Definition stuck_at (s : state) (r : nat) : bool :=
+  match get_req s r with Some (RCheckout ck) => stuckb ck | _ => false end.
+
+Lemma stuck_mono xr xd xt s s' r : Fr xr xd xt s s' -> xr <> Some r -> stuck_at s' r = true -> stuck_at s r = true.
+Proof.
+  intros F Hx. unfold stuck_at. destruct (get_req s' r) as [[|ck'| | |]|] eqn:Hr'; try discriminate. intros Hs.
+  destruct (f_req _ _ _ _ _ F r) as [E|Hrel]; [congruence|]. rewrite Hr' in Hrel.
+  destruct (req_rel_ck_inv _ _ Hrel) as [ck [-> (_ & _ & _ & _ & T5 & _)]]. auto.
+Qed.
+
+Lemma not_live_not_stuck s w : rx_live s w = false -> stuck_at s w = false.
+Proof.
+  unfold rx_live, stuck_at, stuckb. destruct (get_req s w) as [[|ck| | |]|]; auto. destruct (k_waiter ck); auto; discriminate.
+Qed.
+
+Lemma stuck_deliver s w p : rx_live s w = true -> stuck_at (deliver w p s) w = false.
+Proof.
+  unfold rx_live, deliver. destruct (get_req s w) as [[|ck| | |]|] eqn:Hr; try discriminate. intros _.
+  assert (E : stuck_at (set_req w (RCheckout (k_set_slot (Some p) ck)) s) w = false).
+  { unfold stuck_at. erewrite get_req_set_same by exact Hr. unfold stuckb. cbn. destruct (k_waiter ck); reflexivity. }
+  destruct (k_rxpolled ck); exact E.
+Qed.
+
+Lemma walk_unsticks t c sh ws : forall s w b, In (w, b) ws ->
+  (sh = false /\ In (w, b) (fst (fst (walk_waiters t c sh ws s)))) \/ stuck_at (snd (walk_waiters t c sh ws s)) w = false.
+Proof.
+  induction ws as [|[w0 b0] ws IH]; intros s w b Hin; [destruct Hin|]. cbn [walk_waiters].
+  destruct (rx_live s w0) eqn:Hl; [destruct sh|].
+  - destruct Hin as [E|Hin]; [|apply IH; exact Hin]. inversion E; subst w0 b0. right.
+    set (s1 := deliver w (c, 0) (clone_conn c s)).
+    assert (H1 : stuck_at s1 w = false) by (apply stuck_deliver; exact Hl).
+    destruct (stuck_at (snd (walk_waiters t c true ws s1)) w) eqn:E2; [|reflexivity].
+    rewrite (stuck_mono None None None s1 _ w (proj1 (Tr_walk_waiters t c true ws s1))) in H1; [discriminate|discriminate|exact E2].
+  - cbn [fst snd]. destruct Hin as [E|Hin]; [|left; auto]. inversion E; subst w0 b0. right. apply stuck_deliver. exact Hl.
+  - destruct Hin as [E|Hin]; [|apply IH; exact Hin]. inversion E; subst w0 b0. right.
+    pose proof (not_live_not_stuck s w Hl) as H1.
+    destruct (stuck_at (snd (walk_waiters t c sh ws s)) w) eqn:E2; [|reflexivity].
+    rewrite (stuck_mono None None None s _ w (proj1 (Tr_walk_waiters t c sh ws s))) in H1; [discriminate|discriminate|exact E2].
+Qed.
+
+Lemma tok_upd_other t t' f s : t <> t' -> get_tok (upd_tok t f s) t' = get_tok s t'.
+Proof.
+  intros Hne. destruct t as [|i]; [reflexivity|]. destruct t' as [|j]; [reflexivity|].
+  cbn [get_tok upd_tok toks set_toks]. apply nth_upd_nth_other. congruence.
+Qed.
+Lemma tok_upd_same i f s : i < List.length (toks s) -> get_tok (upd_tok (S i) f s) (S i) = f (get_tok s (S i)).
+Proof. intros Hl. cbn [get_tok upd_tok toks set_toks]. apply nth_upd_nth_same. exact Hl. Qed.
+Lemma waiting_in_range s t x : In x (waiting s t) -> exists i, t = S i /\ i < List.length (toks s).
+Proof.
+  unfold waiting. destruct t as [|i]; [intros []|]. intros H. exists i. split; [reflexivity|].
+  destruct (Nat.lt_ge_cases i (List.length (toks s))); [assumption|]. cbn [get_tok] in H. rewrite nth_overflow in H by assumption. destruct H.
+Qed.
+Lemma marker_in_range s t : marker s t <> None -> exists i, t = S i /\ i < List.length (toks s).
+Proof.
+  unfold marker. destruct t as [|i]; [intros H; contradiction H; reflexivity|]. intros H. exists i. split; [reflexivity|].
+  destruct (Nat.lt_ge_cases i (List.length (toks s))); [assumption|]. cbn [get_tok] in H. rewrite nth_overflow in H by assumption. contradiction H. reflexivity.
+Qed.
+
+Lemma marker_upd_waiting t v s t' : marker (upd_tok t (set_waiting v) s) t' = marker s t'.
+Proof.
+  unfold marker. destruct (Nat.eq_dec t t') as [<-|Hne]; [|rewrite tok_upd_other by exact Hne; reflexivity].
+  destruct t as [|i]; [reflexivity|]. destruct (Nat.lt_ge_cases i (List.length (toks s))) as [Hl|Hl].
+  - rewrite tok_upd_same by exact Hl. reflexivity.
+  - cbn [get_tok upd_tok toks set_toks]. rewrite !nth_overflow by (rewrite ?upd_nth_length; exact Hl). reflexivity.
+Qed.
+Lemma waiting_upd_marker t v s t' : waiting (upd_tok t (set_marker v) s) t' = waiting s t'.
+Proof.
+  unfold waiting. destruct (Nat.eq_dec t t') as [<-|Hne]; [|rewrite tok_upd_other by exact Hne; reflexivity].
+  destruct t as [|i]; [reflexivity|]. destruct (Nat.lt_ge_cases i (List.length (toks s))) as [Hl|Hl].
+  - rewrite tok_upd_same by exact Hl. reflexivity.
+  - cbn [get_tok upd_tok toks set_toks]. rewrite !nth_overflow by (rewrite ?upd_nth_length; exact Hl). reflexivity.
+Qed.
+Lemma marker_upd_none t s t' o : marker (upd_tok t (set_marker None) s) t' = Some o -> marker s t' = Some o.
+Proof.
+  unfold marker. destruct (Nat.eq_dec t t') as [<-|Hne]; [|rewrite tok_upd_other by exact Hne; auto].
+  destruct t as [|i]; [auto|]. destruct (Nat.lt_ge_cases i (List.length (toks s))) as [Hl|Hl].
+  - rewrite tok_upd_same by exact Hl. cbn. discriminate.
+  - cbn [get_tok upd_tok toks set_toks]. rewrite !nth_overflow by (rewrite ?upd_nth_length; exact Hl). auto.
+Qed.
+Lemma toks_upd_tok_length t f s : List.length (toks (upd_tok t f s)) = List.length (toks s).
+Proof. destruct t; [reflexivity|]. cbn. apply upd_nth_length. Qed.
+
+Lemma get_req_upd_tok t f s r : get_req (upd_tok t f s) r = get_req s r.
+Proof. destruct t; reflexivity. Qed.
+
+Lemma Fr_upd_tok t f s : Fr None None None s (upd_tok t f s).
+Proof. destruct t; [apply Fr_refl|]. apply Fr_same; auto. cbn. apply upd_nth_length. Qed.
+
+(* push up to the rewrite of the waiting queue *)
+Lemma Tr_push_walk t c s :
+  let s1 := if share_of s c then upd_tok t (set_marker None) s else s in
+  let w := walk_waiters t c (share_of s1 c) (p_waiting (get_tok s1 t)) s1 in
+  Tr None None None s (upd_tok t (set_waiting (fst (fst w))) (snd w)).
+Proof.
+  intros s1 w.
+  assert (Hsh : share_of s1 c = share_of s c) by (subst s1; destruct (share_of s c) eqn:E; [destruct t; exact E|exact E]).
+  assert (F1 : Fr None None None s s1) by (subst s1; destruct (share_of s c); [apply Fr_upd_tok|apply Fr_refl]).
+  pose proof (Tr_walk_waiters t c (share_of s1 c) (p_waiting (get_tok s1 t)) s1) as [F2 _]. fold w in F2.
+  pose proof (toks_walk_waiters t c (share_of s1 c) (p_waiting (get_tok s1 t)) s1) as Ht2. fold w in Ht2.
+  pose proof (walk_unsticks t c (share_of s1 c) (p_waiting (get_tok s1 t)) s1) as Hu. fold w in Hu.
+  set (s2 := snd w) in *. set (rest := fst (fst w)) in *.
+  assert (Hg2 : forall t', get_tok s2 t' = get_tok s1 t') by (intros [|j]; cbn [get_tok]; [reflexivity|rewrite Ht2; reflexivity]).
+  split; [eapply Fr_trans; [exact F1|]; eapply Fr_trans; [exact F2|apply Fr_upd_tok]|]. constructor.
+  - intros t' o. rewrite marker_upd_waiting. unfold marker at 1. rewrite Hg2. fold (marker s1 t').
+    subst s1. destruct (share_of s c); [apply marker_upd_none|auto].
+  - intros r ck _ Hr Hs Hin Hm. rewrite get_req_upd_tok in Hr.
+    assert (Hw1 : forall t', waiting s1 t' = waiting s t') by (intros t'; subst s1; destruct (share_of s c); [apply waiting_upd_marker|reflexivity]).
+    rewrite marker_upd_waiting. unfold marker at 1. rewrite Hg2. fold (marker s1 (k_token ck)).
+    destruct (Nat.eq_dec t (k_token ck)) as [E|Hne].
+    + rewrite <- E in Hin, Hm |- *. destruct (waiting_in_range _ _ _ Hin) as [i [Ei Hl]]. clear E. subst t.
+      assert (Hin1 : In (r, true) (p_waiting (get_tok s1 (S i)))) by (fold (waiting s1 (S i)); rewrite Hw1; exact Hin).
+      destruct (Hu r true Hin1) as [[Hsf Hrest]|Hns].
+      * rewrite Hsh in Hsf. assert (E1 : s1 = s) by (subst s1; rewrite Hsf; reflexivity).
+        split; [|rewrite E1; exact Hm].
+        unfold waiting. rewrite tok_upd_same by (rewrite Ht2, E1; exact Hl). exact Hrest.
+      * unfold stuck_at in Hns. rewrite Hr in Hns. congruence.
+    + split.
+      * unfold waiting. rewrite tok_upd_other by exact Hne. rewrite Hg2. fold (waiting s1 (k_token ck)). rewrite Hw1. exact Hin.
+      * subst s1. destruct (share_of s c); [|exact Hm]. unfold marker. rewrite tok_upd_other by exact Hne. exact Hm.
+Qed.
+
+Lemma Tr_pool_push n t c s : Tr None None None s (pool_push n t c s).
+Proof.
+  unfold pool_push. pose proof (Tr_push_walk t c s) as H. cbv zeta in H.
+  destruct (walk_waiters t c _ _ _) as [[rest moved] s2]. cbn [fst snd] in H.
+  destruct moved; [exact H|].
+  match goal with |- context [if ?b then _ else _] => destruct b end.
+  - eapply Tr_trans; [exact H|]. apply Tr_upd_tok_idle. intros p. split; reflexivity.
+  - eapply Tr_trans; [exact H|]. apply Tr_drop_conn.
+Qed.
+
+Lemma stuck_drop_sender s w : stuck_at (drop_sender w s) w = false.
+Proof.
+  unfold drop_sender. destruct (get_req s w) as [[|ck| | |]|] eqn:Hr; try (unfold stuck_at; rewrite Hr; reflexivity).
+  assert (E : stuck_at (set_req w (RCheckout (k_set_txdropped true ck)) s) w = false).
+  { unfold stuck_at. erewrite get_req_set_same by exact Hr. unfold stuckb. cbn. destruct (k_waiter ck), (k_slot ck); reflexivity. }
+  destruct (k_waiter ck) eqn:Hw; try (destruct (k_rxpolled ck); exact E).
+  unfold stuck_at, stuckb. rewrite Hr, Hw. reflexivity.
+Qed.
+
+Lemma release_unsticks ws : forall s w, In (w, true) ws -> stuck_at (snd (release_pending ws s)) w = false.
+Proof.
+  induction ws as [|[w0 b0] ws IH]; intros s w Hin; [destruct Hin|]. cbn [release_pending].
+  destruct b0.
+  - destruct Hin as [E|Hin]; [|apply IH; exact Hin]. inversion E; subst w0.
+    pose proof (stuck_drop_sender s w) as H1.
+    destruct (stuck_at (snd (release_pending ws (drop_sender w s))) w) eqn:E2; [|reflexivity].
+    rewrite (stuck_mono None None None _ _ w (proj1 (Tr_release_pending ws (drop_sender w s)))) in H1; [discriminate|discriminate|exact E2].
+  - destruct Hin as [E|Hin]; [inversion E|]. specialize (IH s w Hin). destruct (release_pending ws s) as [rest' s']. exact IH.
+Qed.
+
+Lemma Tr_pool_cancel t rid s : Tr None None None s (pool_cancel t rid s).
+Proof.
+  unfold pool_cancel. destruct (p_marker (get_tok s t)) as [o|]; [|apply Tr_refl]. destruct (Nat.eqb o rid); [|apply Tr_refl].
+  set (s1 := upd_tok t (set_marker None) s).
+  pose proof (Tr_release_pending (p_waiting (get_tok s1 t)) s1) as [F2 _].
+  pose proof (toks_release_pending (p_waiting (get_tok s1 t)) s1) as Ht2.
+  pose proof (release_unsticks (p_waiting (get_tok s1 t)) s1) as Hu.
+  destruct (release_pending (p_waiting (get_tok s1 t)) s1) as [rest s2]. cbn [snd] in *.
+  assert (Hg2 : forall t', get_tok s2 t' = get_tok s1 t') by (intros [|j]; cbn [get_tok]; [reflexivity|rewrite Ht2; reflexivity]).
+  split; [eapply Fr_trans; [apply Fr_upd_tok|]; eapply Fr_trans; [exact F2|apply Fr_upd_tok]|]. constructor.
+  - intros t' o'. rewrite marker_upd_waiting. unfold marker at 1. rewrite Hg2. apply marker_upd_none.
+  - intros r ck _ Hr Hs Hin Hm. rewrite get_req_upd_tok in Hr.
+    destruct (Nat.eq_dec t (k_token ck)) as [E|Hne].
+    + exfalso. rewrite <- E in Hin.
+      assert (Hin1 : In (r, true) (p_waiting (get_tok s1 t))) by (fold (waiting s1 t); unfold s1; rewrite waiting_upd_marker; exact Hin).
+      specialize (Hu r Hin1). unfold stuck_at in Hu. rewrite Hr in Hu. congruence.
+    + split.
+      * unfold waiting. rewrite tok_upd_other by exact Hne. rewrite Hg2. unfold s1. rewrite tok_upd_other by exact Hne. exact Hin.
+      * unfold marker. rewrite tok_upd_other by exact Hne. rewrite Hg2. unfold s1. rewrite tok_upd_other by exact Hne. exact Hm.
+Qed.
+
+Lemma Tr_register cfg t c s : Tr None None None s (snd (register cfg t c s)).
+Proof.
+  unfold register. destruct (g_pool cfg && negb (t =? 0)); [destruct (share_of s c)|]; cbn [snd]; try apply Tr_refl.
+  destruct (is_open s c); [|apply Tr_refl]. eapply Tr_trans; [apply Tr_clone_conn|apply Tr_pool_push].
+Qed.
+
+Lemma Tr_hold_release r p s : Tr None None None s (hold_release r p s).
+Proof. unfold hold_release. eapply Tr_trans; [apply Tr_upd_conn|]. eapply Tr_trans; [apply Tr_emit|apply Tr_pooled_drop]. Qed.
+
+(* ---------------------------------------------------------------- steps about the exempt request *)
+Lemma Tr_upd_dial_x xr xt r f s : Tr xr (Some r) xt s (upd_dial r f s).
+Proof.
+  apply Tr_of_Fr; [apply get_tok_frame; reflexivity|]. constructor; auto.
+  - intros r'. right. apply req_rel_refl.
+  - intros r' Hne. rewrite get_dial_upd_dial. destruct (Nat.eqb_spec r r'); [congruence|reflexivity].
+Qed.
+
+Lemma Tr_set_conns v s : Tr None None None s (set_conns v s).
+Proof. apply Tr_same; auto. Qed.
+
+Lemma Tr_connector_poll xr xt rid by_ s : Tr xr (Some rid) xt s (snd (connector_poll rid by_ s)).
+Proof.
+  unfold connector_poll. destruct (get_dial s rid) as [d|]; [|apply Tr_refl].
+  destruct (d_stage d) as [| |[alpn| |]|]; cbn [snd]; try apply Tr_refl; try apply Tr_upd_dial_x.
+  - eapply Tr_trans; [apply Tr_weaken; apply Tr_emit|apply Tr_upd_dial_x].
+  - eapply Tr_trans; [apply Tr_weaken; apply Tr_set_conns|]. eapply Tr_trans; [apply Tr_weaken; apply Tr_emit|apply Tr_upd_dial_x].
+Qed.
+
+Lemma Tr_set_req_x xd xt r v s : Tr (Some r) xd xt s (set_req r v s).
+Proof. apply Tr_set_req. left. reflexivity. Qed.
+
+Lemma Tr_spawn_delayed xr xd rid t own s : Tr xr xd (Some rid) s (spawn (TDelayed rid t own) s).
+Proof.
+  apply Tr_of_Fr; [apply get_tok_frame; reflexivity|]. constructor.
+  - intros r. right. apply req_rel_refl.
+  - reflexivity.
+  - intros tid rid' t' own' H. left. unfold spawn. cbn [tasks set_tasks set_runq].
+    rewrite app_nth1; [exact H|]. destruct (Nat.lt_ge_cases tid (List.length (tasks s))); [assumption|].
+    rewrite nth_overflow in H by assumption. discriminate.
+  - intros tid rid' t' own' H. unfold spawn in H. cbn [tasks set_tasks set_runq] in H.
+    destruct (Nat.lt_ge_cases tid (List.length (tasks s))) as [Hl|Hl]; [rewrite app_nth1 in H by exact Hl; left; exact H|].
+    rewrite app_nth2 in H by exact Hl. destruct (tid - List.length (tasks s)) as [|[|n]]; cbn in H; try discriminate.
+    inversion H; subst. right. reflexivity.
+  - unfold spawn. cbn. eexists. reflexivity.
+  - reflexivity.
+  - reflexivity.
+  - reflexivity.
+Qed.
+
+Lemma Tr_finish_task xr xd xt tid s :
+  (forall rid t own, nth tid (tasks s) None = Some (TDelayed rid t own) -> xt = Some rid) -> Tr xr xd xt s (finish_task tid s).
+Proof.
+  intros Hx. apply Tr_of_Fr; [apply get_tok_frame; reflexivity|]. constructor; auto.
+  - intros r. right. apply req_rel_refl.
+  - intros tid' rid t own H. unfold finish_task. cbn [tasks set_tasks].
+    destruct (Nat.eq_dec tid tid') as [<-|Hne]; [right; eapply Hx; exact H|]. left. rewrite nth_upd_nth_other by exact Hne. exact H.
+  - intros tid' rid t own H. left. unfold finish_task in H. cbn [tasks set_tasks] in H.
+    destruct (Nat.eq_dec tid tid') as [<-|Hne]; [|rewrite nth_upd_nth_other in H by exact Hne; exact H].
+    destruct (Nat.lt_ge_cases tid (List.length (tasks s))) as [Hl|Hl].
+    + rewrite nth_upd_nth_same in H by exact Hl. discriminate.
+    + rewrite nth_overflow in H by (rewrite upd_nth_length; exact Hl). discriminate.
+Qed.
+
+Lemma Tr_checkout_poll cfg rid ck s : Tr (Some rid) (Some rid) None s (snd (checkout_poll cfg rid ck s)).
+Proof.
+  unfold checkout_poll.
+  destruct (waiter_poll ck) as [w ck1]. destruct w as [|p|]; cbn [snd]; try apply Tr_refl.
+  destruct (k_inner ck1); cbn [snd]; try apply Tr_refl.
+  1: { destruct (k_conn ck1) as [c|]; cbn [snd]; [|apply Tr_refl].
+       pose proof (Tr_rx_drop (k_set_conn None ck1) s) as H2.
+       destruct (rx_drop (k_set_conn None ck1) s) as [ck2 s2]. cbn [snd] in H2.
+       pose proof (Tr_register cfg (k_token ck2) c (set_req rid (RCheckout ck2) s2)) as H4.
+       destruct (register cfg (k_token ck2) c (set_req rid (RCheckout ck2) s2)) as [p s3]. cbn [snd] in *.
+       eapply Tr_trans; [apply Tr_weaken; exact H2|]. eapply Tr_trans; [apply Tr_set_req_x|apply Tr_weaken; exact H4]. }
+  all: pose proof (Tr_connector_poll (Some rid) None rid ByReq s) as H1;
+    destruct (connector_poll rid ByReq s) as [r s1]; cbn [snd] in H1;
+    (destruct r as [|res]; cbn [snd]; [exact H1|]);
+    pose proof (Tr_rx_drop ck1 s1) as H2;
+    destruct (rx_drop ck1 s1) as [ck2 s2]; cbn [snd] in H2;
+    assert (H3 : Tr (Some rid) (Some rid) None s (set_req rid (RCheckout (k_set_inner IConnected ck2)) s2))
+      by (eapply Tr_trans; [exact H1|]; eapply Tr_trans; [apply Tr_weaken; exact H2|apply Tr_set_req_x]);
+    (destruct res as [c|e]; cbn [snd]; [|exact H3]);
+    pose proof (Tr_register cfg (k_token (k_set_inner IConnected ck2)) c (set_req rid (RCheckout (k_set_inner IConnected ck2)) s2)) as H4;
+    destruct (register cfg (k_token (k_set_inner IConnected ck2)) c (set_req rid (RCheckout (k_set_inner IConnected ck2)) s2)) as [p s3];
+    cbn [snd] in *; eapply Tr_trans; [exact H3|apply Tr_weaken; exact H4].
+Qed.
+
+Lemma Tr_checkout_drop cfg rid ck s : Tr (Some rid) (Some rid) (Some rid) s (checkout_drop cfg rid ck s).
+Proof.
+  unfold checkout_drop.
+  set (s1 := match k_conn ck with
+             | Some c => if is_open s c && (g_pool cfg && negb (k_token ck =? 0)) then pool_push (g_max_idle cfg) (k_token ck) c s else drop_conn c s
+             | None => s end).
+  assert (H1 : Tr None None None s s1).
+  { subst s1. destruct (k_conn ck) as [c|]; [|apply Tr_refl].
+    destruct (is_open s c && (g_pool cfg && negb (k_token ck =? 0))); [apply Tr_pool_push|apply Tr_drop_conn]. }
+  set (started := match get_dial s1 rid with Some d => match d_stage d with DNew => false | _ => true end | None => false end).
+  set (delayed := match k_inner ck with IDelayDrop => started | _ => false end).
+  set (s2 := if delayed then spawn (TDelayed rid (k_token ck) (k_owner ck)) s1
+             else if g_pool cfg && negb (k_token ck =? 0) && k_owner ck then pool_cancel (k_token ck) rid s1 else s1).
+  assert (H2 : Tr (Some rid) (Some rid) (Some rid) s1 s2).
+  { subst s2. destruct delayed; [apply Tr_spawn_delayed|].
+    destruct (g_pool cfg && negb (k_token ck =? 0) && k_owner ck); [apply Tr_weaken; apply Tr_pool_cancel|apply Tr_refl]. }
+  pose proof (Tr_rx_drop ck s2) as H3.
+  destruct (rx_drop ck s2) as [ck' s3]. cbn [snd] in H3.
+  assert (H4 : Tr (Some rid) (Some rid) (Some rid) s s3).
+  { eapply Tr_trans; [apply Tr_weaken; exact H1|]. eapply Tr_trans; [exact H2|apply Tr_weaken; exact H3]. }
+  assert (H5 : Tr (Some rid) (Some rid) (Some rid) s (upd_dial rid (d_set_stage DGone) s3)) by (eapply Tr_trans; [exact H4|apply Tr_upd_dial_x]).
+  destruct (k_inner ck); try exact H4; try exact H5. destruct delayed; [exact H4|exact H5].
+Qed.
+
+(* ---------------------------------------------------------------- operations *)
+Lemma Tr_do_poll cfg r s : Tr (Some r) (Some r) (Some r) s (do_poll cfg r s).
+Proof.
+  unfold do_poll. destruct (get_req s r) as [[|ck|p fin pl| |]|] eqn:Hr; try apply Tr_refl.
+  - eapply Tr_trans; [apply Tr_weaken; apply Tr_unwake_req|]. eapply Tr_trans; [apply Tr_weaken; apply Tr_emit|apply Tr_set_req_x].
+  - pose proof (Tr_checkout_poll cfg r ck (unwake_req r s)) as H2.
+    destruct (checkout_poll cfg r ck (unwake_req r s)) as [[res ck1] s2]. cbn [snd] in H2.
+    assert (H2' : Tr (Some r) (Some r) (Some r) s s2) by (eapply Tr_trans; [apply Tr_weaken; apply Tr_unwake_req|apply Tr_weaken_t; exact H2]).
+    destruct res as [|[p|e]].
+    + eapply Tr_trans; [exact H2'|]. eapply Tr_trans; [apply Tr_set_req_x|apply Tr_weaken; apply Tr_emit].
+    + destruct (match get_conn s2 (fst p) with Some cn => (c_share cn, c_open cn, c_ready cn, c_holders cn) | None => (false, false, false, 0) end)
+        as [[[sh op_] rd] hs].
+      eapply Tr_trans; [exact H2'|]. eapply Tr_trans; [apply Tr_weaken; apply Tr_emit|].
+      eapply Tr_trans; [apply Tr_weaken; apply Tr_upd_conn|]. eapply Tr_trans; [apply Tr_set_req_x|].
+      eapply Tr_trans; [apply Tr_checkout_drop|apply Tr_weaken; apply Tr_emit].
+    + eapply Tr_trans; [exact H2'|]. eapply Tr_trans; [apply Tr_set_req_x|].
+      eapply Tr_trans; [apply Tr_checkout_drop|apply Tr_weaken; apply Tr_emit].
+  - eapply Tr_trans; [apply Tr_weaken; apply Tr_unwake_req|]. destruct fin.
+    + eapply Tr_trans; [apply Tr_set_req_x|]. eapply Tr_trans; [apply Tr_weaken; apply Tr_hold_release|apply Tr_weaken; apply Tr_emit].
+    + eapply Tr_trans; [apply Tr_set_req_x|apply Tr_weaken; apply Tr_emit].
+Qed.
+
+Lemma Tr_do_cancel cfg r s : Tr (Some r) (Some r) (Some r) s (do_cancel cfg r s).
+Proof.
+  unfold do_cancel. destruct (get_req s r) as [[|ck|p fin pl| |]|] eqn:Hr; try apply Tr_refl.
+  - eapply Tr_trans; [apply Tr_set_req_x|apply Tr_weaken; apply Tr_unwake_req].
+  - eapply Tr_trans; [apply Tr_set_req_x|]. eapply Tr_trans; [apply Tr_checkout_drop|apply Tr_weaken; apply Tr_unwake_req].
+  - eapply Tr_trans; [apply Tr_set_req_x|]. eapply Tr_trans; [apply Tr_weaken; apply Tr_hold_release|apply Tr_weaken; apply Tr_unwake_req].
+  - apply Tr_weaken; apply Tr_unwake_req.
+  - apply Tr_weaken; apply Tr_unwake_req.
+Qed.
+
+Lemma Tr_do_finish r s : Tr None None None s (do_finish r s).
+Proof.
+  unfold do_finish. destruct (get_req s r) as [[|ck|p fin pl| |]|] eqn:Hr; try apply Tr_refl.
+  assert (H : Tr None None None s (set_req r (RHolding p true false) s)).
+  { apply Tr_set_req. right. intros rq E. rewrite Hr in E. inversion E; subst. cbn. eauto. }
+  destruct pl; [eapply Tr_trans; [exact H|apply Tr_wake_req]|exact H].
+Qed.
+
+Lemma Tr_do_upgrade r s : Tr None None None s (do_upgrade r s).
+Proof.
+  unfold do_upgrade. destruct (get_req s r) as [[|ck|p fin pl| |]|]; try apply Tr_refl.
+  eapply Tr_trans; [apply Tr_upd_conn|apply Tr_drain_conn_waiters].
+Qed.
+Lemma Tr_do_conn_ready c s : Tr None None None s (do_conn_ready c s).
+Proof. unfold do_conn_ready. destruct (get_conn s c); [|apply Tr_refl]. eapply Tr_trans; [apply Tr_upd_conn|apply Tr_drain_conn_waiters]. Qed.
+Lemma Tr_do_conn_close c s : Tr None None None s (do_conn_close c s).
+Proof. unfold do_conn_close. destruct (get_conn s c); [|apply Tr_refl]. eapply Tr_trans; [apply Tr_upd_conn|apply Tr_drain_conn_waiters]. Qed.
+
+Lemma Tr_do_dial_done r y s : Tr None (Some r) None s (do_dial_done r y s).
+Proof.
+  unfold do_dial_done. destruct (get_dial s r) as [d|]; [|apply Tr_refl]. destruct (d_stage d); try apply Tr_refl.
+  eapply Tr_trans; [apply Tr_upd_dial_x|apply Tr_weaken; apply Tr_wake_poller].
+Qed.
+
+Definition task_rid (s : state) (tid : nat) : option nat :=
+  match nth tid (tasks s) None with Some (TDelayed rid _ _) => Some rid | _ => None end.
+
+Lemma Tr_run_task cfg tid s : Tr None (task_rid s tid) (task_rid s tid) s (run_task cfg tid s).
+Proof.
+  unfold run_task, task_rid. destruct (nth tid (tasks s) None) as [[c t|rid t own]|] eqn:Ht; [| |apply Tr_refl].
+  - assert (Hf : forall s0, nth tid (tasks s0) None = Some (TWhenReady c t) -> Tr None None None s0 (finish_task tid s0)).
+    { intros s0 H0. apply Tr_finish_task. intros rid t' own E. rewrite H0 in E. discriminate. }
+    destruct (get_conn s c) as [cn|]; [|apply Hf; exact Ht].
+    assert (Hfin : forall s0, nth tid (tasks s0) None = Some (TWhenReady c t) ->
+              Tr None None None s0 (if is_open (finish_task tid s0) c && negb (t =? 0) && g_pool cfg
+                   then pool_push (g_max_idle cfg) t c (finish_task tid s0) else drop_conn c (finish_task tid s0))).
+    { intros s0 H0. eapply Tr_trans; [apply Hf; exact H0|].
+      destruct (is_open (finish_task tid s0) c && negb (t =? 0) && g_pool cfg); [apply Tr_pool_push|apply Tr_drop_conn]. }
+    destruct (negb (c_open cn)); [eapply Tr_trans; [apply Tr_emit|apply Hfin; exact Ht]|].
+    destruct (c_share cn || c_ready cn); [eapply Tr_trans; [apply Tr_emit|apply Hfin; exact Ht]|apply Tr_upd_conn].
+  - pose proof (Tr_connector_poll None (Some rid) rid (ByTask tid) s) as H1.
+    assert (Hk : forall s0, Tr None (Some rid) (Some rid) s s0 -> Tr None (Some rid) (Some rid) s (finish_task tid s0)).
+    { intros s0 H0. eapply Tr_trans; [exact H0|]. apply Tr_finish_task. intros rid' t' own' E.
+      destruct (f_new _ _ _ _ _ (proj1 H0) _ _ _ _ E) as [E1|E1]; [|exact E1]. rewrite Ht in E1. inversion E1. reflexivity. }
+    destruct (connector_poll rid (ByTask tid) s) as [r s1]. cbn [snd] in H1.
+    destruct r as [|[c|e]]; [exact H1| |].
+    + pose proof (Tr_register cfg t c s1) as H2.
+      destruct (register cfg t c s1) as [p s2]. cbn [snd] in H2.
+      assert (H3 : Tr None (Some rid) (Some rid) s s2) by (eapply Tr_trans; [exact H1|apply Tr_weaken; exact H2]).
+      eapply Tr_trans; [apply Hk|apply Tr_weaken; apply Tr_pooled_drop].
+      destruct (g_pool cfg && negb (t =? 0) && own); [eapply Tr_trans; [exact H3|apply Tr_weaken; apply Tr_pool_cancel]|exact H3].
+    + apply Hk. destruct (g_pool cfg && negb (t =? 0) && own); [eapply Tr_trans; [exact H1|apply Tr_weaken; apply Tr_pool_cancel]|exact H1].
+Qed.
